@@ -44,6 +44,18 @@ Example thread_mirror_trusted_example :
   thread_starts 50 6 [] [10000 + 1 - 5000] [] (10000 + 1 - 5020) true = Some (1, 10000 + 1 - 5000).
 Proof. vm_compute. split; reflexivity. Qed.
 
+(* ================================================================ is_start_internal / is_end_internal *)
+Lemma existsb_rev {A} (p:A -> bool) l : existsb p (rev l) = existsb p l.
+Proof. induction l as [|a t IH]; [reflexivity|]. cbn [rev]. rewrite existsb_app, IH. cbn [existsb]. rewrite orb_false_r. apply orb_comm. Qed.
+Theorem is_start_internal_mirror L delta outgoing read_end :
+  is_start_internal delta (rfl L outgoing) (L + 1 - read_end) = is_end_internal delta outgoing read_end.
+Proof. unfold is_start_internal, is_end_internal, rfl. rewrite existsb_rev. induction outgoing as [|o t IH]; [reflexivity|]. cbn [map existsb]. rewrite IH. f_equal.
+  unfold rf. cbn [snd]. lia. Qed.
+Theorem is_end_internal_mirror L delta incoming read_start :
+  is_end_internal delta (rfl L incoming) (L + 1 - read_start) = is_start_internal delta incoming read_start.
+Proof. unfold is_start_internal, is_end_internal, rfl. rewrite existsb_rev. induction incoming as [|o t IH]; [reflexivity|]. cbn [map existsb]. rewrite IH. f_equal.
+  unfold rf. cbn [fst]. lia. Qed.
+
 (* ================================================================ categorize_exon_elongation_subtype *)
 (* when the read and the isoform share no split exon inside the scanned range both searches return -1 and Python's split_exons[-1]
    is the LAST split exon on both sides ("Odd case for exon elongation" in the log): not a mirror-symmetric choice *)
